@@ -519,10 +519,27 @@ func (g *gspec) build() *built {
 	addResp := func() { member(root, "responses")["R"] = chainOf("responses", "R", resp) }
 	addPath := func() {
 		pi := func(from string) map[string]interface{} {
+			// every position of a path item at which the expander has to look: the shared parameters, the
+			// parameters, status-code responses and default response of each of the seven operations
+			plain := obj("description", "d")
+			if g.Entry == entAll {
+				// the root already reaches N0 through four kinds of element: one operation is enough here
+				return obj(
+					"parameters", arr(bodyParam(from)),
+					"get", obj("parameters", arr(obj("name", "q", "in", "body", "schema", n0(from))),
+						"responses", obj("200", resp(from), "default", plain)),
+				)
+			}
 			return obj(
 				"parameters", arr(bodyParam(from)),
 				"get", obj("parameters", arr(obj("name", "q", "in", "body", "schema", n0(from))),
-					"responses", obj("200", resp(from), "default", obj("description", "d"))),
+					"responses", obj("200", resp(from), "default", plain)),
+				"put", obj("parameters", arr(obj("name", "h", "in", "header", "type", "string"), bodyParam(from)), "responses", obj("204", plain)),
+				"post", obj("responses", obj("201", plain, "400", resp(from))),
+				"delete", obj("responses", obj("default", resp(from))),
+				"options", obj("parameters", arr(bodyParam(from)), "responses", obj("200", plain)),
+				"head", obj("responses", obj("200", plain, "default", resp(from))),
+				"patch", obj("parameters", arr(bodyParam(from)), "responses", obj("200", resp(from))),
 			)
 		}
 		paths := member(root, "paths")
